@@ -6,6 +6,7 @@ import (
 	"encoding/json"
 	"fmt"
 	"hash/fnv"
+	"math"
 	"math/big"
 	"math/rand"
 	"strconv"
@@ -76,13 +77,14 @@ func (check) Cases(tier string) int {
 func (check) Exhaustive(string) bool { return false }
 
 func (check) Rule() string {
-	return "each random case: 20 documents = a random data tree (objects over a key pool incl. \"\", spaces, quotes, backslash, non-ASCII; arrays; strings over an alphabet with quote, backslash, solidus, control, DEL, non-ASCII, astral, Unicode spaces and all syntax characters, strings ending in backslashes; integers at the int64/uint64/2^53 boundaries; integer numerals beyond 64 bits of both signs; floats incl. extremes; true/false/null; {} and []) rendered by our own renderer (compact / indented / whitespace with probability 8..95% at every position JSON allows; every escape spelling incl. upper/lower/mixed hex and surrogate pairs; fraction and exponent respellings of numbers), validated against encoding/json, parsed with parse.Value and with all 24 legal parse.Config values; ~1/7 of the documents additionally spell some strings with single quotes; plus 2 top-level comma word lists per case; plus 6 nested-literal documents per case (arrays/objects, nested up to 3 deep, under a config with Object, StringDQuote and/or StringSQuote off, whose elements / member values open with a disabled { \" or ' and hold the other container's closer, colons, quotes, spaces; mixed with normal scalars, enabled-quote strings holding stop characters, unquoted and enabled-quote keys; each run with IgnoreCommas off and on); plus 4 top-level comma documents per case (a complete dq-string / sq-string / array / object / word followed by a comma and nothing, a quoted value, a container, a word or 2-3 more values; all 24 configs); plus wide/deep documents (quick: one deep per case, one wide every 4th case; thorough: every 5th / 20th): 0-3 wrapper levels, a wide array or object with 0-6 (deep) or 100-60000 (wide, clustered around 10000) siblings drawn from a 1-3 kind palette of 14 element kinds (empty containers with and without blanks, scalars, short strings, small containers), a tail chain of arrays/objects placed first/middle/last whose depth aims at exactly 10000 (35%), 9999, 10001, beyond, or anything below, siblings before the child at 0/1/30/100% of the tail levels, three whitespace layouts; half of them parsed right after an over-limit, unterminated or empty-object-heavy document; parsed with parse.Value and one more config; plus (thorough: all, quick: a seed-chosen slice of) strings of length <= 6 over [ ] { } \" , : \\ a 1 space that encoding/json accepts. Non-trivial = the document has at least one container or one escaped string; distinct = distinct document text."
+	return "each random case: 20 documents = a random data tree (objects over a key pool incl. \"\", spaces, quotes, backslash, non-ASCII; arrays; strings over an alphabet with quote, backslash, solidus, control, DEL, non-ASCII, astral, Unicode spaces and all syntax characters, strings ending in backslashes; integers at the int64/uint64/2^53 boundaries; integer numerals beyond 64 bits of both signs; floats incl. extremes; true/false/null; {} and []) rendered by our own renderer (compact / indented / whitespace with probability 8..95% at every position JSON allows; every escape spelling incl. upper/lower/mixed hex and surrogate pairs; fraction and exponent respellings of numbers), validated against encoding/json, parsed with parse.Value and with all 24 legal parse.Config values; ~1/7 of the documents additionally spell some strings with single quotes; plus 2 top-level comma word lists per case; plus 6 nested-literal documents per case (arrays/objects, nested up to 3 deep, under a config with Object, StringDQuote and/or StringSQuote off, whose elements / member values open with a disabled { \" or ' and hold the other container's closer, colons, quotes, spaces; mixed with normal scalars, enabled-quote strings holding stop characters, unquoted and enabled-quote keys; each run with IgnoreCommas off and on); plus 4 top-level comma documents per case (a complete dq-string / sq-string / array / object / word followed by a comma and nothing, a quoted value, a container, a word or 2-3 more values; all 24 configs); plus wide/deep documents (quick: one deep per case, one wide every 4th case; thorough: every 5th / 20th): 0-3 wrapper levels, a wide array or object with 0-6 (deep) or 100-60000 (wide, clustered around 10000) siblings drawn from a 1-3 kind palette of 14 element kinds (empty containers with and without blanks, scalars, short strings, small containers), a tail chain of arrays/objects placed first/middle/last whose depth aims at exactly 10000 (35%), 9999, 10001, beyond, or anything below, siblings before the child at 0/1/30/100% of the tail levels, three whitespace layouts; half of them parsed right after an over-limit, unterminated or empty-object-heavy document; parsed with parse.Value and one more config; plus 6 float-syntax boundary documents per case (a number with fraction and/or exponent - plain, scaled, scientific, 0.x, arbitrary point position, e/E, signed and zero-padded exponents - whose exact value is an integer or within a fraction of one at 2^31, 2^32, 2^52..2^54, 2^62..2^65 of both signs, offset by 0, +-1, the rounding ties, +-ulp or at random; at top level or 1-3 levels deep as array element / object member between other values, whitespace at every position; parse.Value and one more config); after every successful canonical comparison the key sets of all objects are compared exactly (a member holding null, [] or {} must be a key of the map); plus (thorough: all, quick: a seed-chosen slice of) strings of length <= 6 over [ ] { } \" , : \\ a 1 space that encoding/json accepts. Non-trivial = the document has at least one container or one escaped string; distinct = distinct document text."
 }
 
 func (check) Assumptions() []string {
 	return []string{
 		"encoding/json (UseNumber) is the second witness that a generated text is valid JSON for the generating tree; a disagreement is counted as generator_error and reported as INCONCLUSIVE, never as a violation",
-		"canonical comparison: numbers by value (uint64/int64/float64 all fine), nil == {} == [] == absent key inside dictionaries (the parser documents []/{} -> nil), nil list elements stay",
+		"canonical comparison: numbers by value (uint64/int64/float64 all fine), nil == {} == [] (the parser documents []/{} -> nil), nil list elements stay; the canonical form alone would also equate an absent key with a nil member, therefore the key sets of every object are compared exactly afterwards: each member of the document is a key of the returned map (value nil for null; nil or an empty list/map for [] and {}), no other keys",
+		"float-syntax numbers at the 64 bit / 2^53 boundaries: the exact rational value is known by construction; accepted is any Go number equal to it or equal to the float64 nearest to it (round to nearest even, big.Rat.Float64), whatever the Go type",
 		"numbers: integers in digit spelling over the whole int64/uint64 range; fraction/exponent spellings only for values a float64 holds exactly (|n| <= 2^53) or for float64 data (compared with the correctly rounded value); integer NUMERALS (digits only) no 64 bit type holds, of both signs, near the 64 bit span and up to 10^39, exact or anywhere inside the rounding interval, must come back as the nearest float64 (what encoding/json makes of them); the numerals just below MinInt64 whose float64 is -2^63 may come back as their text or as -2^63 (2 such documents per case); nothing beyond float64 range; no duplicate object keys",
 		"single-quoted strings are taken verbatim (documented: no unescaping) and never contain a single quote",
 		"config rules: (1) a document using only enabled syntax must parse as under DefaultConfig (or as the generating data); (2) a document OPENING with a disabled bracket/quote must come back as its literal trimmed text, judged only without any comma in the text or under IgnoreCommas; random JSON documents using disabled syntax only deeper inside are not judged (their commas make the literal reading split them); the nested-literal documents judge exactly that position: an array element / object member value opening with a disabled opener is the raw text up to the container's next stop character (comma or ] in an array, comma or } in an object), no bracket or quote matching, trimmed; expectation built constructively and cross-checked by an own raw-slicing reader of that rule (disagreement = generator_error); object keys opening with a DISABLED quote are not generated (the parser reads quoted keys regardless of the flags); (3) plain-word comma lists: list without IgnoreCommas, one string with it; IgnoreCommas after a quoted first element is not generated",
@@ -392,6 +394,7 @@ func (c *runner) checkDoc(d *model.Node, text, origin string) {
 		res.Violate(sig, "parse.Value(%q): got %s, want %s%s [%s]", text, o0, want, note, origin)
 	default:
 		res.Ev("default_ok", 1)
+		c.checkMembers(d, o0, text, "parse.Value", true)
 	}
 	if c.verbose {
 		fmt.Printf("doc %q -> %s (want %s)\n", text, o0, want)
@@ -444,7 +447,11 @@ func (c *runner) checkDoc(d *model.Node, text, origin string) {
 		if cfg.IgnoreCommas && syn.arr && hasComma && o.is(want) {
 			res.Ev("cfg_rule4_list_inside_brackets_under_ignorecommas", 1)
 		}
-		if o.is(want) || o.same(o0) {
+		if o.is(want) {
+			c.checkMembers(d, o, text, "ValueWithConfig["+name+"]", false)
+			continue
+		}
+		if o.same(o0) {
 			continue
 		}
 		if o.panicked {
@@ -532,7 +539,7 @@ func (c *runner) classify(d *model.Node, text string, toks []tok, want string, o
 			}
 			break
 		}
-		return generic + ":value:" + kindOf(m), note + fmt.Sprintf("; smallest failing sub-value in plain spelling: %q", compactJSON(m))
+		return generic + ":value:" + kindOf(m) + floatDetail(m), note + fmt.Sprintf("; smallest failing sub-value in plain spelling: %q", compactJSON(m))
 	}
 	if nows := withoutWS(text, toks, -1); nows != text && passes(nows) {
 		for i, tk := range toks {
@@ -743,6 +750,9 @@ func (check) Run(seed int64, tier string, idx int, verbose bool) harness.Result 
 	for k := 0; k < zoneDocsPerCase; k++ {
 		c.zoneDoc(r)
 	}
+	for k := 0; k < floatLitDocsPerCase; k++ {
+		c.floatLitDoc(r)
+	}
 	// wide / deep documents cost 10-50 ms each: every case (deep) and every 4th
 	// case (wide) in the quick tier, every 5th / 20th in the thorough tier
 	deepEvery, wideEvery := 1, 4
@@ -783,4 +793,21 @@ func (c *runner) runEnum(seed int64, tier string, chunk int) {
 	if c.verbose {
 		fmt.Printf("enumerated strings %d..%d of %d\n", start, start+enumChunk, total)
 	}
+}
+
+// floatDetail narrows the sig of a failing float64 value: an integral value
+// inside the span of the 64 bit integer types but beyond float64's exact
+// integers is a class of its own (it can be mistaken for an integer).
+func floatDetail(m *model.Node) string {
+	if m == nil || m.Kind != model.KPrim {
+		return ""
+	}
+	f, ok := m.Prim.(float64)
+	if !ok || f != math.Trunc(f) {
+		return ""
+	}
+	if a := math.Abs(f); a >= 1<<53 && f >= -(1<<63) && f < 1<<64 {
+		return ":integral-in-64-bit-span-beyond-2^53"
+	}
+	return ""
 }
